@@ -165,6 +165,46 @@ func raceWindow(h *raceH, p *prng, rounds int) {
 	wg.Wait()
 	h.st.hit("window:overwrite-rounds")
 	h.st.Ops += int(sends)
+	// refused overwrites: a pipeline registered with DenyOverwrite, registrations of its id that are refused
+	// again and again, and Sends meanwhile: a refused call has no effect, at no moment
+	{
+		rb, _ := eventlogger.NewBroker()
+		must(rb.RegisterNode("v1", &markNode{1}))
+		must(rb.RegisterNode("v2", &markNode{2}))
+		must(rb.RegisterNode("fmt", &eventlogger.JSONFormatter{}))
+		must(rb.RegisterNode("sink", nopSink{}))
+		must(rb.RegisterPipeline(eventlogger.Pipeline{PipelineID: "d", EventType: "w", NodeIDs: []eventlogger.NodeID{"v1", "fmt", "sink"}},
+			eventlogger.WithPipelineRegistrationPolicy(eventlogger.DenyOverwrite)))
+		var stop2 int32
+		var wg3 sync.WaitGroup
+		var sends2 int64
+		for g := 0; g < 8; g++ {
+			wg3.Add(1)
+			go func() {
+				defer wg3.Done()
+				for atomic.LoadInt32(&stop2) == 0 {
+					cp := &countPayload{}
+					rb.Send(context.Background(), "w", cp)
+					atomic.AddInt64(&sends2, 1)
+					if cp.hits[1] != 1 || cp.hits[2] != 0 {
+						h.oracle("C04 while registrations of pipeline d were being REFUSED (it is registered with DenyOverwrite and never removed) a Send was delivered %d times to it and %d times to the refused definition: a refused call had an effect, no sequential order of the calls explains that", cp.hits[1], cp.hits[2])
+						h.oracle("C07 a Send was processed by the definition a DenyOverwrite pipeline refused (v1=%d v2=%d)", cp.hits[1], cp.hits[2])
+						return
+					}
+				}
+			}()
+		}
+		for i := 0; i < rounds*8 && atomic.LoadInt32(&stop2) == 0; i++ {
+			if err := rb.RegisterPipeline(eventlogger.Pipeline{PipelineID: "d", EventType: "w", NodeIDs: []eventlogger.NodeID{"v2", "fmt", "sink"}}); err == nil {
+				h.oracle("C07 a registration of a DenyOverwrite pipeline's id was accepted")
+				break
+			}
+		}
+		atomic.StoreInt32(&stop2, 1)
+		wg3.Wait()
+		h.st.hit("window:refused-overwrite-rounds")
+		h.st.Ops += int(sends2)
+	}
 	// registration / removal windows (C04); a second pipeline of the type with a slow root keeps every
 	// Send's walk over the type's pipelines going for a while
 	must(b.RegisterNode("slow", &slowMark{d: 60 * time.Microsecond}))
@@ -527,6 +567,16 @@ func (p *cgPayload) ComposeFrom(events []*eventlogger.Event) (eventlogger.EventT
 	return "t", fmt.Sprintf("composite-%d", len(events)), nil
 }
 
+type slowSender struct{ d time.Duration }
+
+func (s slowSender) Send(ctx context.Context, t eventlogger.EventType, payload interface{}) (eventlogger.Status, error) {
+	runtime.Gosched()
+	if s.d > 0 {
+		time.Sleep(s.d)
+	}
+	return eventlogger.Status{}, nil
+}
+
 type nullSender struct{}
 
 func (nullSender) Send(ctx context.Context, t eventlogger.EventType, payload interface{}) (eventlogger.Status, error) {
@@ -538,7 +588,9 @@ func raceGated(h *raceH, p *prng, rounds int) {
 		ch := &cgHarness{composed: map[int64]int{}, slow: time.Duration(p.intn(300)) * time.Microsecond}
 		// the filter's clock takes its time (a yield and a few microseconds): whatever the filter does between
 		// looking a group up and storing an event in it is stretched, under its lock or not
-		f := &gated.Filter{Broker: nullSender{}, Expiration: time.Hour, NowFunc: func() time.Time {
+		// ... and so does the Broker the composites are sent through (a slow sink): whatever the filter does
+		// around Send is stretched too
+		f := &gated.Filter{Broker: slowSender{time.Duration(p.intn(150)) * time.Microsecond}, Expiration: time.Hour, NowFunc: func() time.Time {
 			runtime.Gosched()
 			time.Sleep(5 * time.Microsecond)
 			return time.Now()
@@ -548,13 +600,14 @@ func raceGated(h *raceH, p *prng, rounds int) {
 		accepted := map[int64]bool{}
 		var wg sync.WaitGroup
 		nG := 2 + p.intn(5)
+		nIDs := 2 + r%3
 		for g := 0; g < nG; g++ {
 			wg.Add(1)
 			go func(g int) {
 				defer wg.Done()
 				for i := 0; i < 30; i++ {
 					u := atomic.AddInt64(&uid, 1)
-					pl := &cgPayload{uid: u, id: fmt.Sprintf("g%d", i%2), flush: i%4 == 3, h: ch}
+					pl := &cgPayload{uid: u, id: fmt.Sprintf("g%d", i%nIDs), flush: i%4 == 3, h: ch}
 					_, err := f.Process(context.Background(), &eventlogger.Event{Type: "t", Payload: pl})
 					if err == nil {
 						accMu.Lock()
@@ -573,6 +626,11 @@ func raceGated(h *raceH, p *prng, rounds int) {
 		}
 		for u := range accepted {
 			if n := ch.composed[u]; n != 1 {
+				if n == 0 {
+					h.oracle("C17 FlushAll, called after %d concurrent senders (and FlushAll calls) had finished, returned successfully but an accepted event of one of the %d groups was never handed to composition: it remains gated", nG, nIDs)
+				} else {
+					h.oracle("C17 a gated group was emitted %d times (senders, flush events and FlushAll running concurrently): every gated group is emitted exactly once", n)
+				}
 				h.oracle("C11 under concurrent senders an accepted event was handed to composition %d times (exactly once required)", n)
 				h.oracle("C19 gated.Filter shared by %d senders: an accepted event reached composition %d times: the composed output is corrupted (an event lost or doubled)", nG, n)
 				break
@@ -667,6 +725,115 @@ func raceEncRot(h *raceH, p *prng, rounds int) {
 		h.st.Cases++
 	}
 	h.st.hit("encrot:rounds")
+}
+
+// ---- typehook: a second Broker call made while RegisterPipeline is validating (C05, C07, C04) ----
+
+// hookNode is a node whose Type() -- node code, called by RegisterPipeline while it validates the
+// definition -- takes its time, once: it announces that validation is under way and waits until the
+// competing call has returned, or 30 ms
+type hookNode struct {
+	ty   eventlogger.NodeType
+	once sync.Once
+	hook func()
+}
+
+func (n *hookNode) Process(ctx context.Context, e *eventlogger.Event) (*eventlogger.Event, error) {
+	if n.ty == eventlogger.NodeTypeSink {
+		return nil, nil
+	}
+	return e, nil
+}
+func (n *hookNode) Reopen() error { return nil }
+func (n *hookNode) Type() eventlogger.NodeType {
+	if n.hook != nil {
+		n.once.Do(n.hook)
+	}
+	return n.ty
+}
+
+// A registration is one atomic step for every other call: whatever arrives while it is validating the
+// definition takes effect wholly before or wholly after it.
+func raceTypeHook(h *raceH, p *prng, rounds int) {
+	ctx := context.Background()
+	for r := 0; r < rounds; r++ {
+		for _, variant := range []string{"deny", "remove-node", "deny-deny"} {
+			b, _ := eventlogger.NewBroker()
+			inV := make(chan struct{})
+			yDone := make(chan struct{})
+			hooked := &hookNode{ty: eventlogger.NodeTypeFormatter}
+			hooked.hook = func() {
+				close(inV)
+				select {
+				case <-yDone:
+				case <-time.After(30 * time.Millisecond):
+				}
+			}
+			// the slow node is the formatter or the sink of the definition being registered
+			f, s := eventlogger.Node(hooked), eventlogger.Node(&hookNode{ty: eventlogger.NodeTypeSink})
+			if p.intn(2) == 0 {
+				hooked.ty = eventlogger.NodeTypeSink
+				f, s = &hookNode{ty: eventlogger.NodeTypeFormatter}, hooked
+			}
+			b.RegisterNode("f", f)
+			b.RegisterNode("s", s)
+			b.RegisterNode("f2", &hookNode{ty: eventlogger.NodeTypeFormatter})
+			b.RegisterNode("s2", &hookNode{ty: eventlogger.NodeTypeSink})
+			var errX error
+			xDone := make(chan struct{})
+			var xOpts []eventlogger.Option
+			if variant == "deny-deny" {
+				xOpts = append(xOpts, eventlogger.WithPipelineRegistrationPolicy(eventlogger.DenyOverwrite))
+			}
+			go func() {
+				errX = b.RegisterPipeline(eventlogger.Pipeline{PipelineID: "p", EventType: "t", NodeIDs: []eventlogger.NodeID{"f", "s"}}, xOpts...)
+				close(xDone)
+			}()
+			select {
+			case <-inV:
+			case <-xDone: // the node's Type was not consulted: nothing to interleave with
+				h.st.hit("typehook:no-hook")
+				close(yDone)
+				h.st.Cases++
+				continue
+			}
+			var errY error
+			switch variant {
+			case "deny", "deny-deny":
+				errY = b.RegisterPipeline(eventlogger.Pipeline{PipelineID: "p", EventType: "t", NodeIDs: []eventlogger.NodeID{"f2", "s2"}},
+					eventlogger.WithPipelineRegistrationPolicy(eventlogger.DenyOverwrite))
+			case "remove-node":
+				errY = b.RemoveNode(ctx, "f")
+			}
+			close(yDone)
+			<-xDone
+			switch variant {
+			case "deny":
+				// X then Y: Y's DenyOverwrite version is in place; Y then X: X is refused. Either way the id is protected now.
+				err3 := b.RegisterPipeline(eventlogger.Pipeline{PipelineID: "p", EventType: "t", NodeIDs: []eventlogger.NodeID{"f2", "s"}})
+				if errX == nil && errY == nil && err3 == nil {
+					h.oracle("C07 RegisterPipeline(p, DenyOverwrite) returned nil while another RegisterPipeline(p) was validating its nodes; both succeeded and a third RegisterPipeline(p) was accepted too: the DenyOverwrite registration was overwritten without an error and the id is no longer protected")
+					h.oracle("C04 two overlapping RegisterPipeline calls (one DenyOverwrite) both succeeded and left the id unprotected: no sequential order of the two explains it")
+				}
+			case "deny-deny":
+				if errX == nil && errY == nil {
+					h.oracle("C07 two overlapping RegisterPipeline(p, DenyOverwrite) calls both returned nil: one of them overwrote a pipeline that forbids overwriting")
+					h.oracle("C05 RegisterPipeline succeeded although an existing pipeline with that id and type forbids overwriting (registered by a call that returned while this one was validating)")
+					h.oracle("C04 two overlapping RegisterPipeline(p, DenyOverwrite) calls both succeeded: no sequential order explains it")
+				}
+			case "remove-node":
+				// X then Y: the node is in use, Y is refused; Y then X: the node is gone, X is refused
+				if errX == nil && errY == nil {
+					_, listed := b.VerifDump()
+					h.oracle("C05 RegisterPipeline returned nil for a definition listing node f, and RemoveNode(f), made while the definition was being validated, returned nil too: a registered pipeline lists a node that is not registered (%d graphs)", len(listed))
+					h.oracle("C04 overlapping RegisterPipeline([f,s]) and RemoveNode(f) both succeeded: no sequential order explains it")
+				}
+			}
+			h.st.Cases++
+			h.st.Ops += 3
+			h.st.hit("typehook:" + variant)
+		}
+	}
 }
 
 // ---- reopen: overlapping Reopen calls (C20) ----
@@ -790,6 +957,8 @@ func raceMain(args []string) {
 			raceEncRot(h, p, *rounds*4)
 		case "reopen":
 			raceReopen(h, p, *rounds*4)
+		case "typehook":
+			raceTypeHook(h, p, *rounds)
 		}
 		st.hit("scenario:" + s)
 	}
